@@ -26,16 +26,25 @@ import (
 
 type Node struct {
 	Key  int    `json:"key"`
-	Kind string `json:"kind"` // comp | pass | sub
+	Kind string `json:"kind"` // comp | pass | sub | relay
 	Ty   int    `json:"ty,omitempty"`
 	Sub  int    `json:"sub,omitempty"`
 	Br   bool   `json:"br,omitempty"` // behind the multi-branch from START
 	Runs bool   `json:"runs"`         // selected (always true when not behind the branch)
+	// resume cases: the node follows node Pred of the same graph instead of START (a relay is a
+	// plain lambda that turns its predecessor's output back into the graph's whole input map, so
+	// that chains are  node -> relay -> node ...), and the node asks for InterruptAndRerun the
+	// first time it executes in the session
+	Pred  int  `json:"pred,omitempty"`
+	Rerun bool `json:"rerun,omitempty"`
 }
 
 type Graph struct {
 	Nodes []Node `json:"nodes"`
 	Dag   bool   `json:"dag,omitempty"`
+	// interrupt points of this graph (compile options; resume cases only)
+	IB []int `json:"ib,omitempty"`
+	IA []int `json:"ia,omitempty"`
 }
 
 type BOp struct {
@@ -52,6 +61,7 @@ type Call struct {
 	Script []BOp `json:"script"`
 	Pass   []int `json:"pass"`
 	Stream bool  `json:"stream,omitempty"`
+	CpPos  int   `json:"cppos,omitempty"` // resume cases: position of WithCheckPointID among the passed options
 }
 
 type Case struct {
@@ -59,6 +69,11 @@ type Case struct {
 	Calls  []Call  `json:"calls"`
 	Sched  uint64  `json:"sched"`
 	Seq    bool    `json:"seq,omitempty"` // run the calls one after the other instead of concurrently
+	// Resume: the calls form one session on one checkpoint id of a checkpoint store: call 0
+	// starts the run, every later call resumes it where the previous one was interrupted
+	// (interrupt before / after nodes, InterruptAndRerun, at the top level and inside nested
+	// graphs), each call with its own options, until a call completes.
+	Resume bool `json:"resume,omitempty"`
 }
 
 type PL struct {
@@ -67,11 +82,15 @@ type PL struct {
 }
 
 type CallObs struct {
-	Class string `json:"class"` // ok | err | panic | hang
+	Class string `json:"class"` // ok | err | panic | hang; resume cases also: int (interrupted) | unused
 	Err   string `json:"err,omitempty"`
 	Deliv []PL   `json:"deliv,omitempty"`
 	Fired []PL   `json:"fired,omitempty"`
 	Extra string `json:"extra,omitempty"` // harness-level anomaly (node ran twice, unexpected node ran)
+	// resume cases: the node paths that executed / the graph nodes that were entered in this call
+	Ran []string `json:"ran,omitempty"`
+	// resume cases: the checkpoint the call was entered with (nil: none)
+	Ck *Ck `json:"ck,omitempty"`
 }
 
 func keyStr(k int) string { return "k" + strconv.Itoa(k) }
@@ -96,23 +115,67 @@ func (n Node) ty() int {
 
 // ---------------------------------------------------------------- building
 
+// built: the top-level graph and the input of a call. Every graph of the case takes the same
+// map: one entry per component of the tree unfolding, under the component's node path (a
+// nested graph and a lambda take the whole map, so that they can be re-entered / re-run from
+// a checkpoint, which hands them the zero value as input).
 type built struct {
-	g     *compose.Graph[map[string]any, map[string]any]
-	input func() map[string]any
+	g      *compose.Graph[map[string]any, map[string]any]
+	inputs map[string]any
+}
+
+func (b *built) input() map[string]any {
+	m := make(map[string]any, len(b.inputs))
+	for k, v := range b.inputs {
+		m[k] = v
+	}
+	return m
+}
+
+func keyStrs(ks []int) []string {
+	out := make([]string, len(ks))
+	for i, k := range ks {
+		out[i] = keyStr(k)
+	}
+	return out
+}
+
+// compileOpts: trigger mode and interrupt points of graph gi
+func compileOpts(g Graph) []compose.GraphCompileOption {
+	mode := compose.AnyPredecessor
+	if g.Dag {
+		mode = compose.AllPredecessor
+	}
+	o := []compose.GraphCompileOption{compose.WithNodeTriggerMode(mode)}
+	if len(g.IB) > 0 {
+		o = append(o, compose.WithInterruptBeforeNodes(keyStrs(g.IB)))
+	}
+	if len(g.IA) > 0 {
+		o = append(o, compose.WithInterruptAfterNodes(keyStrs(g.IA)))
+	}
+	return o
 }
 
 func buildGraph(ctx context.Context, F []Graph, gi int, pre []int, depth int) (*built, error) {
+	bt := &built{inputs: map[string]any{}}
+	g, err := buildGraph1(ctx, F, gi, pre, depth, bt)
+	bt.g = g
+	return bt, err
+}
+
+func buildGraph1(ctx context.Context, F []Graph, gi int, pre []int, depth int, bt *built) (*compose.Graph[map[string]any, map[string]any], error) {
 	if gi < 0 || gi >= len(F) || depth > len(F) {
 		return nil, fmt.Errorf("harness: bad forest")
 	}
 	g := compose.NewGraph[map[string]any, map[string]any]()
-	type inp struct {
-		key string
-		fn  func() any
-	}
-	var inputs []inp
 	targets := map[string]bool{}
 	sel := map[string]bool{}
+	hasSucc := map[int]bool{}
+	for _, nd := range F[gi].Nodes {
+		if nd.Pred != 0 {
+			hasSucc[nd.Pred] = true
+		}
+	}
 	for _, nd := range F[gi].Nodes {
 		key := keyStr(nd.Key)
 		p := append(append([]int{}, pre...), nd.Key)
@@ -123,38 +186,54 @@ func buildGraph(ctx context.Context, F []Graph, gi int, pre []int, depth int) (*
 			if err != nil {
 				return nil, err
 			}
-			inputs = append(inputs, inp{key, func() any { return v }})
+			if v != nil {
+				bt.inputs[name] = v
+			}
 		case "pass":
 			if err := g.AddPassthroughNode(key, compose.WithNodeName(name), compose.WithOutputKey(key)); err != nil {
 				return nil, err
 			}
 		case "sub":
-			sb, err := buildGraph(ctx, F, nd.Sub, p, depth+1)
+			sb, err := buildGraph1(ctx, F, nd.Sub, p, depth+1, bt)
 			if err != nil {
 				return nil, err
 			}
-			mode := compose.AnyPredecessor
-			if F[nd.Sub].Dag {
-				mode = compose.AllPredecessor
-			}
-			if err := g.AddGraphNode(key, sb.g, compose.WithNodeName(name), compose.WithInputKey(key), compose.WithOutputKey(key),
-				compose.WithGraphCompileOptions(compose.WithNodeTriggerMode(mode))); err != nil {
+			if err := g.AddGraphNode(key, sb, compose.WithNodeName(name), compose.WithOutputKey(key),
+				compose.WithGraphCompileOptions(compileOpts(F[nd.Sub])...)); err != nil {
 				return nil, err
 			}
-			inputs = append(inputs, inp{key, func() any { return sb.input() }})
+		case "relay":
+			l := compose.InvokableLambda(func(ctx context.Context, in map[string]any) (map[string]any, error) {
+				if err := visit(ctx, name, nil); err != nil {
+					return nil, err
+				}
+				return bt.input(), nil
+			})
+			if err := g.AddLambdaNode(key, l, compose.WithNodeName(name)); err != nil {
+				return nil, err
+			}
 		default:
 			return nil, fmt.Errorf("harness: bad node kind %q", nd.Kind)
 		}
-		if nd.Br {
+		switch {
+		case nd.Pred != 0:
+			if err := g.AddEdge(keyStr(nd.Pred), key); err != nil {
+				return nil, err
+			}
+		case nd.Br:
 			targets[key] = true
 			if nd.Runs {
 				sel[key] = true
 			}
-		} else if err := g.AddEdge(compose.START, key); err != nil {
-			return nil, err
+		default:
+			if err := g.AddEdge(compose.START, key); err != nil {
+				return nil, err
+			}
 		}
-		if err := g.AddEdge(key, compose.END); err != nil {
-			return nil, err
+		if !hasSucc[nd.Key] {
+			if err := g.AddEdge(key, compose.END); err != nil {
+				return nil, err
+			}
 		}
 	}
 	if len(targets) > 0 {
@@ -169,13 +248,7 @@ func buildGraph(ctx context.Context, F []Graph, gi int, pre []int, depth int) (*
 			return nil, err
 		}
 	}
-	return &built{g: g, input: func() map[string]any {
-		m := map[string]any{}
-		for _, in := range inputs {
-			m[in.key] = in.fn()
-		}
-		return m
-	}}, nil
+	return g, nil
 }
 
 func toNodePaths(paths [][]int) []*compose.NodePath {
@@ -255,6 +328,9 @@ func walk(F []Graph, gi int, pre []int, depth int, fn visitFn) {
 }
 
 func runCase(c *Case) (obs []CallObs, fatal string) {
+	if c.Resume {
+		return runResume(c)
+	}
 	ctx := context.Background()
 	obs = make([]CallObs, len(c.Calls))
 	var b *built
@@ -265,11 +341,7 @@ func runCase(c *Case) (obs []CallObs, fatal string) {
 		if err != nil {
 			return
 		}
-		mode := compose.AnyPredecessor
-		if c.Forest[0].Dag {
-			mode = compose.AllPredecessor
-		}
-		r, err = b.g.Compile(ctx, compose.WithGraphName("/"), compose.WithNodeTriggerMode(mode))
+		r, err = b.g.Compile(ctx, append(compileOpts(c.Forest[0]), compose.WithGraphName("/"))...)
 	}); p != nil {
 		return nil, fmt.Sprint("panic while building: ", p)
 	}
@@ -366,7 +438,7 @@ func collect(c *Case, rec *recorder) CallObs {
 		name := pathName(p)
 		expected[name] = true
 		switch nd.Kind {
-		case "comp":
+		case "comp", "relay":
 			if rec.ran[name] != 1 {
 				extra = append(extra, fmt.Sprintf("node %s executed %d times", name, rec.ran[name]))
 			}
@@ -464,7 +536,7 @@ func coqObs(o CallObs) string {
 	switch o.Class {
 	case "err":
 		return "OErr"
-	case "ok":
+	case "ok", "int":
 		if o.Extra != "" {
 			return "(OModelBad 1%N)"
 		}
@@ -479,7 +551,7 @@ type engine struct{}
 
 func (engine) ID() string { return "C16" }
 func (engine) CoqHeader() string {
-	return "From Eino Require Import Base.Util Model.Options Corr.C16.\n"
+	return "From Eino Require Import Base.Util Model.Options Model.OptionsResume Corr.C16.\n"
 }
 func (engine) CoqCaseType() string { return "ccase" }
 
@@ -507,6 +579,9 @@ func (engine) Run(ci any) lib.Result {
 		terms[i] = lib.CoqPair(coqCall(c.Calls[i]), coqObs(obs[i]))
 	}
 	res.CoqTerm = lib.CoqApp("Case", coqForest(c.Forest), lib.CoqList(terms))
+	if c.Resume {
+		res.CoqTerm = coqResumeCase(c, obs)
+	}
 	judge(c, obs, &res)
 	return res
 }
